@@ -7,7 +7,6 @@ import (
 	"hash"
 	"os"
 	"path/filepath"
-	"sync"
 	"sync/atomic"
 	"testing"
 
@@ -100,7 +99,6 @@ func c04RunOnce(tree *h.Tree, dstDir string, c *c04Case, f *c04Fault) *c04Run {
 	var fired int32
 	fire := func() { atomic.StoreInt32(&fired, 1) }
 	var hashN, notifyN int32
-	var mu sync.Mutex
 	opt := fsutil.ReceiveOpt{}
 	needHasher := c.Notify || (f != nil && (f.Kind == "hasher" || f.Kind == "notify"))
 	if needHasher {
@@ -196,7 +194,6 @@ func c04RunOnce(tree *h.Tree, dstDir string, c *c04Case, f *c04Fault) *c04Run {
 			}
 		}
 	}
-	_ = mu
 	run.res = h.RunSync(mem, dstDir, h.SyncOpt{Capacity: c.Capacity, Recv: opt, Setup: setup, CheckLeaks: true})
 	if f != nil && (f.Kind == "walk" || f.Kind == "read") {
 		// these fire inside the source: detect from the source's own counters
@@ -320,6 +317,14 @@ func c04Check(env *h.Env, c *c04Case) error {
 			// make the replay pin this one fault
 			c.Only = &f
 			return fmt.Errorf(what+": "+format, args...)
+		}
+		if run.res.Stuck != "" && h.MutualSendDeadlock(run.res.Stuck) {
+			if err := env.Known("mutual-send-deadlock-after-error", "%s: both ends left their receive loops after the error while each still has SendMsg calls blocked on the stream (capacity %d): neither call returns", what, c.Capacity); err != nil {
+				c.Only = &f
+				return err
+			}
+			h.RemoveAllForce(d)
+			continue
 		}
 		if run.res.Stuck != "" {
 			return fail("Send/Receive never returned although the stream was torn down as far as the transport model allows; blocked goroutines:\n%s", run.res.Stuck)
